@@ -12,6 +12,7 @@ import (
 	"fmt"
 	"os"
 	"path/filepath"
+	"regexp"
 	"sort"
 	"strings"
 	"time"
@@ -50,6 +51,8 @@ func (o op) String() string {
 		return fmt.Sprintf("append(log%d,%q)", o.log, o.text+"\n")
 	case "frag":
 		return fmt.Sprintf("append(log%d,%q)", o.log, o.text)
+	case "trunc":
+		return fmt.Sprintf("truncate(log%d)", o.log)
 	case "prog":
 		return "write(p.mtail," + o.ver + ")+reload"
 	case "rmprog":
@@ -80,6 +83,8 @@ func newCounts() counts {
 	return counts{rtErr: map[string]int64{}, loads: map[string]int64{}, unloads: map[string]int64{}, loadErrs: map[string]int64{}}
 }
 
+var wordRe = regexp.MustCompile(`^\w+$`)
+
 func isInt(s string) bool {
 	var x int64
 	_, err := fmt.Sscan(s, &x)
@@ -89,7 +94,8 @@ func isInt(s string) bool {
 func mkConfig(c *vlib.Ctx, cname string, depth int, withQ bool) hsx.Config {
 	ops := []op{
 		{kind: "line", log: 0, text: "1"}, {kind: "line", log: 0, text: "e"}, {kind: "line", log: 1, text: "1"}, {kind: "line", log: 1, text: "e"},
-		{kind: "frag", log: 0, text: "F"},
+		{kind: "frag", log: 0, text: "F"}, {kind: "frag", log: 0, text: "\r"},
+		{kind: "trunc", log: 0},
 		{kind: "prog", ver: "ok"}, {kind: "prog", ver: "errs"}, {kind: "prog", ver: "broken"}, {kind: "prog", ver: "clash"},
 		{kind: "rmprog"}, {kind: "poll"},
 	}
@@ -167,7 +173,7 @@ func mkConfig(c *vlib.Ctx, cname string, depth int, withQ bool) hsx.Config {
 				deliver := func(log int, text string) {
 					want.lines++
 					want.logLines[log]++
-					if running == "errs" && !isInt(text) {
+					if running == "errs" && wordRe.MatchString(text) && !isInt(text) {
 						want.rtErr["p.mtail"]++
 					}
 				}
@@ -210,6 +216,16 @@ func mkConfig(c *vlib.Ctx, cname string, depth int, withQ bool) hsx.Config {
 							pending[o.log] += o.text
 						}
 						f.Close()
+					case "trunc":
+						// the generation ends: a pending fragment is delivered as its own line
+						if err := os.Truncate(logs[o.log], 0); err != nil {
+							viol("harness-fs", err.Error())
+							return
+						}
+						if pending[o.log] != "" {
+							deliver(o.log, pending[o.log])
+							pending[o.log] = ""
+						}
 					case "prog":
 						if fileVer == o.ver {
 							applic = false
@@ -266,6 +282,24 @@ func mkConfig(c *vlib.Ctx, cname string, depth int, withQ bool) hsx.Config {
 				vrt.Quiesce()
 				w2.Broadcast()
 				vrt.Quiesce()
+				// stopping ends every generation: pending fragments are delivered, and counted, once
+				if res.Violation == "" {
+					for k := range pending {
+						if pending[k] != "" {
+							deliver(k, pending[k])
+							pending[k] = ""
+						}
+					}
+					check := func(name string, got, wantv int64) {
+						if got != wantv {
+							viol("counter-after-stop "+name, fmt.Sprintf("after stopping the pipeline %s has moved by %d; the history contains %d such events (pending fragments are delivered when tailing stops)", name, got, wantv))
+						}
+					}
+					check("lines_total", runtime.LineCount.Value()-base.lines, want.lines)
+					for k, l := range logs {
+						check(fmt.Sprintf("log_lines_total[log%d]", k), mapVal("log_lines_total", l), want.logLines[k])
+					}
+				}
 			})
 			if !applic {
 				return hsx.Result{}
@@ -291,5 +325,5 @@ func main() {
 		"counters are process-global expvars and are read as deltas from the start of each execution",
 		"the prometheus registry's DescribeByCollect goroutine takes the free store lock directly (see C19)",
 	}
-	hsx.Explore(c, "explicit-state exploration of histories over {append a line (integer / non-integer text) to log a or b, append an unterminated fragment, write p.mtail as {ok, raises a runtime error on non-integer lines, does not compile, cannot register because q.mtail holds one of its names with another kind} and reload, remove p.mtail and reload, poll} on the whole pipeline (tailer, file streams, runtime, VMs); after every step lines_total, log_lines_total per log, log_count, prog_runtime_errors_total, prog_loads_total, prog_unloads_total and prog_load_errors_total per program moved by exactly the number of such events in the history", cfgs...)
+	hsx.Explore(c, "explicit-state exploration of histories over {append a line (integer / non-integer text) to log a or b, append an unterminated fragment (text, or a lone carriage return), truncate a log, write p.mtail as {ok, raises a runtime error on non-integer lines, does not compile, cannot register because q.mtail holds one of its names with another kind} and reload, remove p.mtail and reload, poll} on the whole pipeline (tailer, file streams, runtime, VMs); after every step lines_total, log_lines_total per log, log_count, prog_runtime_errors_total, prog_loads_total, prog_unloads_total and prog_load_errors_total per program moved by exactly the number of such events in the history; after the pipeline is stopped the line counters have also counted the pending fragments, once", cfgs...)
 }
